@@ -53,6 +53,10 @@ def _case(draw, max_ops):
                 op['reset_after'] = draw(st.integers(1, accum))
             if draw(st.integers(0, 4)) == 0:
                 op['extra_fwd'] = draw(st.integers(1, 3))     # only honoured on steps that are not factor-update steps
+            if not in_hook and draw(st.integers(0, 4)) == 0:
+                # a train-mode no_grad forward pass inside the window of a factor-update step (factors updated in step()): the layer has
+                # then seen one more input batch than output gradients, and each factor is the mean over what IT has seen
+                op['fwd_only_at'] = draw(st.integers(0, 2))
             if bystander:
                 # micro-batch indices after which the bystander model runs one micro-batch of its own
                 op['by'] = sorted(draw(st.sets(st.integers(0, accum - 1), max_size=accum)))
@@ -119,7 +123,7 @@ class C05(Prop):
             k = op['op']
             if k == 'train':
                 hp_seen.append(tuple(ls.ref.get(x) for x in ('factor_update_steps', 'inv_update_steps', 'damping', 'factor_decay', 'kl_clip', 'lr')))
-                bad = ls.train_iter(op['seed'], op.get('sizes'), op.get('reset_after'), by=op.get('by', ()), extra_fwd=op.get('extra_fwd', 0))
+                bad = ls.train_iter(op['seed'], op.get('sizes'), op.get('reset_after'), by=op.get('by', ()), extra_fwd=op.get('extra_fwd', 0), fwd_only_at=op.get('fwd_only_at'))
             elif k == 'eval':
                 bad = ls.eval_pass(op['seed'])
             elif k == 'reset_batch':
